@@ -24,7 +24,12 @@ class Constant(LeafNode):
         super(Constant, self).__init__()
         self.val = val
 
-        self.name = str(val)
+        name = str(val)
+        if name in ('inf', 'nan'):
+            # inf and nan are identifiers of the specification language too: a variable of that
+            # name and the constant must not share a name (operators and results are keyed by it)
+            name = '+' + name
+        self.name = name
 
 
     @property
